@@ -414,6 +414,15 @@ class EquityMonitor:
         c.count('c16_equity_samples')
         scale = max(abs(want), abs(self.spec['balance']))
         tag = f"type={self.spec['type']}|routes={self.nroutes}"
+        if not is_initial:
+            # a MARKET order is filled at the moment it is submitted (C02): a sample taken while one is still
+            # queued is not the account equity of that moment (its fill and fee are missing)
+            from jesse.store import store
+            pend = [o for o in store.orders.to_execute if o.is_active]
+            if pend:
+                self.v(c, 'equity-sample', f'C16|equity-sampled-while-market-orders-are-pending|{tag}',
+                       {'index': n, 'pending': [[o.type, o.side, float(o.qty)] for o in pend][:3]})
+                return
         if is_initial:
             if val != self.spec['balance'] and not C.close(val, self.spec['balance']):
                 self.v(c, 'first-sample', f'C16|first-equity-sample-not-starting-balance|{tag}', {'got': val, 'want': self.spec['balance']})
